@@ -250,6 +250,14 @@ def check_accept_headers(got: List[List[str]], exp: dict, key: Optional[str], le
             return f"accept token {tok} != {want}"
         if lean_token is not None and tok != [lean_token]:
             return f"accept token {tok} != Lean {lean_token}"
+    if version == "1.1":
+        # the 101 says `Connection: Upgrade` and nothing else about the connection (RFC 6455 4.2.2 / 4.1: a client fails the
+        # handshake without an `upgrade` token; `close` contradicts the switch)
+        conn = [[t.strip().lower() for t in v.split(",")] for n, v in g if n == "connection"]
+        if len(conn) != 1 or conn[0] != ["upgrade"]:
+            return f"connection header(s) of the 101: {[v for n, v in g if n == 'connection']}"
+        if [v.lower() for n, v in g if n == "upgrade"] != ["websocket"]:
+            return f"upgrade header(s) of the 101: {[v for n, v in g if n == 'upgrade']}"
     own = {"sec-websocket-protocol", "sec-websocket-extensions", "sec-websocket-accept", "upgrade", "connection", "date", "server", "alt-svc"}
     extra = [h for h in g if h[0] not in own or h in [[n.lower(), v] for n, v in exp["extra"]]]
     extra = [h for h in extra if h[0] not in ("date", "server", "alt-svc")]
@@ -502,7 +510,8 @@ def e2e_wsrun(case: dict) -> dict:
     else:
         app.append(["recv_until_disconnect"])
         client = [["sleep", 0.1], ["eof"]]
-    return {"worker": case["worker"], "carrier": carrier, "deflate": False, "mask_seed": case.get("mask_seed", 5), "cfg": {},
+    return {"worker": case["worker"], "carrier": carrier, "deflate": False, "mask_seed": case.get("mask_seed", 5), "cfg": dict(case.get("cfg") or {}),
+            "before": case.get("before", 0),
             "headers": headers, "method": case["method"], "version": case["version"], "protocol": case.get("protocol", "websocket"),
             "app": app, "client": client, "seg": ["one"], "subprotocols": [], "tail": 30}
 
@@ -544,7 +553,13 @@ def run_e2e(ctx: Ctx, cases: List[dict]) -> None:
                 # h2 may refuse a malformed CONNECT at the connection level (GOAWAY / RST_STREAM) instead of a 400
                 ctx.violation("invalid_not_400_or_app_started", case, {"status": status, "apps": o["apps"], "goaway": o["h2_goaway"]}, {**sig0, "hclass": case.get("hclass")})
             continue
-        if len(wsapps) != 1 or len(o["apps"]) != 1:
+        nb = case.get("before", 0) if carrier == "h1" else 0
+        if nb or case.get("cfg"):
+            ctx.count("e2e.keep_alive_max/before", f"{(case.get('cfg') or {}).get('keep_alive_max_requests')}/{nb}")
+        if nb and [(b or {}).get("status") for b in (o.get("before") or [])] != [200] * nb:
+            ctx.violation("requests_before_upgrade_not_served", case, o.get("before"), {**sig0, "hclass": case.get("hclass")})
+            continue
+        if len(wsapps) != 1 or len(o["apps"]) != 1 + nb:
             ctx.violation("valid_not_upgraded", case, {"status": status, "apps": o["apps"]}, {**sig0, "hclass": case.get("hclass")})
             continue
         app = wsapps[0]
@@ -700,6 +715,15 @@ def run(ctx: Ctx) -> None:
         for worker in ("asyncio", "trio"):
             for cl in [c for c in CLOSINGS if c[0] not in ("client_close_twice", "bad_frame")] + [["abrupt", "reset"]]:
                 ecases.append({"layer": "e2e", **h, "worker": worker, "decisions": [["accept", None, []]], "closing": cl})
+    # the upgrade as the k-th request of its connection, below / at the per-connection request maximum (the server's own
+    # `connection: close` belongs on final responses; the 101 of an accept stays the faithful rendering of the accept)
+    for h in valid:
+        for worker in ("asyncio", "trio"):
+            for kmax, nb in ([(1, 0), (2, 1), (3, 2), (3, 1), (2, 0)] if h["carrier"] == "h1" else [(1, 0), (2, 0)]):
+                for dec, cl in (([["accept", None, []]], ["client_first", 1000]), ([["accept", None, [["x-extra", "1"]]]], ["app_first", 1000]),
+                                ([["close", None]], ["abrupt"])):
+                    ecases.append({"layer": "e2e", **h, "hclass": h["hclass"] + ":at_request_max", "worker": worker, "decisions": dec, "closing": cl,
+                                   "cfg": {"keep_alive_max_requests": kmax}, "before": nb})
     # decisions
     for _ in range(ctx.budget(400, 3000)):
         h = rng.choice(valid)
@@ -709,16 +733,18 @@ def run(ctx: Ctx) -> None:
     oracle_cases = []
     for worker in ("asyncio", "trio"):
         for d in ([["accept", None, []]], [["accept", "chat", [["x-extra", "1"]]]]):
-            oracle_cases.append((worker, d))
-    for worker, d in oracle_cases:
+            for kmax, nb in ((None, 0), (1, 0), (3, 2), (3, 1)):
+                oracle_cases.append((worker, d, kmax, nb))
+    for worker, d, kmax, nb in oracle_cases:
         app = [["recv"]] + [["send", m] for m in dec_msgs(d[0])] + [["recv_until_disconnect"]]
         o = W.run_session({"worker": worker, "carrier": "h1", "app": app, "client": [["close", 1000], ["flush"], ["eof"]], "subprotocols": ["chat", "superchat"],
-                           "headers": None, "seg": ["one"]})
+                           "headers": None, "seg": ["one"], "cfg": {} if kmax is None else {"keep_alive_max_requests": kmax}, "before": nb})
         ctx.evaluations += 1
-        ctx.count("e2e.handshake_class", "h1:wsproto_client_oracle")
+        ctx.count("e2e.handshake_class", "h1:wsproto_client_oracle" + ("" if kmax is None else ":at_request_max"))
         if o["client"]["accept_oracle"] != "accepted":
-            ctx.violation("accept_rejected_by_wsproto_client", {"layer": "e2e", "oracle": True, "worker": worker, "decisions": d},
-                          {"oracle": o["client"]["accept_oracle"], "handshake": o["client"]["handshake"]}, {"layer": "e2e", "carrier": "h1"})
+            ctx.violation("accept_rejected_by_wsproto_client", {"layer": "e2e", "oracle": True, "worker": worker, "decisions": d, "keep_alive_max": kmax, "before": nb},
+                          {"oracle": o["client"]["accept_oracle"], "handshake": o["client"]["handshake"], "before": o.get("before")},
+                          {"layer": "e2e", "carrier": "h1", "at_request_max": kmax is not None and nb + 1 >= kmax})
 
 
 def replay(ctx: Ctx, case: dict) -> None:
